@@ -232,6 +232,11 @@ func (m *BaseUndoLogManager) FlushUndoLog(tranCtx *types.TransactionContext, con
 	if err != nil {
 		return err
 	}
+	// the context names a compressor and rollback decompresses by it: store what the context describes
+	rollbackInfo, err = compressor.CompressorType(parseContext[compressorTypeKey]).GetCompressor().Compress(rollbackInfo)
+	if err != nil {
+		return err
+	}
 
 	return m.InsertUndoLog(undo.UndologRecord{
 		BranchID:     tranCtx.BranchID,
